@@ -7,6 +7,7 @@ pub(crate) mod c03;
 pub(crate) mod c04;
 pub(crate) mod c05;
 pub(crate) mod c07;
+pub(crate) mod c08;
 pub(crate) mod c09;
 pub(crate) mod c10;
 pub(crate) mod c13;
@@ -37,6 +38,7 @@ pub(crate) fn run(id: &str, opts: &Opts) -> Option<i32> {
         "C04" => c04::run(opts, &mut report),
         "C05" => c05::run(opts, &mut report),
         "C07" => c07::run(opts, &mut report),
+        "C08" => c08::run(opts, &mut report),
         "C09" => c09::run(opts, &mut report),
         "C10" => c10::run(opts, &mut report),
         "C13" => c13::run(opts, &mut report),
